@@ -12,7 +12,7 @@ PROP = {
             "distinct = FNV of the program text with the comment; non-trivial = D(P) has >= 3 diagnostics and the comment had something to act on "
             "(>= 1 diagnostic hidden in scope, or >= 1 diagnostic with a listed code kept outside the scope)",
     "min_nontrivial": {"quick": 25000, "thorough": 800000},
-    "max_secs": {"quick": 50, "thorough": 900},
+    "max_secs": {"quick": 600, "thorough": 1500},
     "require_clauses": ["hide:disable-next-line", "hide:disable-line", "hide:disable", "keep-outside:disable-next-line",
                         "keep-outside:disable-line", "keep-outside:disable", "other-codes-kept"],
     "assumptions": COMMON_ASSUME + [
